@@ -89,6 +89,43 @@ def menu_for(tier):
 
 import z3   # noqa: E402
 
+CONC_ARGS = dict(pids=["a", "b"], contents=[C_ONE, C_MULTI], formats=[None], fake_cid=False)
+
+
+def conc_scenarios(tier):
+    """two store_object calls asking for different additional algorithms run concurrently on one instance; afterwards
+    a plain sequential call on that instance reports exactly its own key set and true digests"""
+    def after(w, s):
+        bad = []
+        for add in ("blake2b", "sha224", None):
+            try:
+                try:
+                    s.delete_object(w.pids[0])
+                except Exception:   # noqa
+                    pass
+                om = s.store_object(w.pids[0], w.src(1), add)
+            except Exception as e:   # noqa
+                bad.append(("C02:later-call-failed", type(e).__name__))
+                continue
+            want = set(FIVE) | ({add} if add else set())
+            if set(om.hex_digests) != want:
+                bad.append(("C02:key-set-of-a-later-call-depends-on-the-concurrent-calls",
+                            "asked for %s, got %s" % (add, sorted(set(om.hex_digests) ^ want))))
+            for a, h in om.hex_digests.items():
+                if h != hashlib.new(a, w.contents[1]).hexdigest():
+                    bad.append(("C02:reported-digest-wrong-after-concurrent-calls", a))
+        return bad
+
+    def fn(w):
+        out = []
+        for calls in ([step.StoreObj(0, 0, add="sha224", add_canon="sha224"), step.StoreObj(1, 1, add="blake2b", add_canon="blake2b")],
+                      [step.StoreObj(0, 0, checksum=hashlib.sha3_256(w.contents[0]).hexdigest(), calgo="sha3_256", calgo_canon="sha3_256"),
+                       step.StoreObj(1, 1, add="blake2s", add_canon="blake2s")]):
+            out.append(("%s || then plain calls on the same instance || from: empty store" % " || ".join(
+                "store_object(%s)" % (c.add or c.calgo) for c in calls), {}, calls, dict(after=after)))
+        return out
+    return fn
+
 
 def main(tier, replay_payload=None):
     big = bytes((i * 7 + i // 251) % 256 for i in range(70001))
@@ -99,13 +136,20 @@ def main(tier, replay_payload=None):
     menu_fn = menu_for(tier)
     from props import C02_xh
     kf = lambda: C02_xh.kernels(tier)
+    def replayer(p):
+        if p.get("harness") == "sched":
+            return conc.replay_schedule(CONC_ARGS, conc_scenarios(tier), p["k"], p["log"], p["bound"], p["clauses"][0])
+        return make_replayer(w_args, menu_fn, kf)(p)
     if replay_payload is not None:
-        return make_replayer(w_args, menu_fn, kf)(replay_payload)
+        return replayer(replay_payload)
     run = report.Run("C02", tier, technique="pathsym inductive step with the instance's algorithm list in Inv; "
                      "structured symbolic spellings (algorithm x case mask x separator) chosen by the solver")
-    run.replayer = make_replayer(w_args, menu_fn, kf)
+    run.replayer = replayer
     res = step.explore_steps(w_args, menu_fn)
     collect(run, res, MINE, w_args, menu_fn)
+    from props.C07 import fold as sched_fold
+    sched_fold(run, conc.explore_scenarios(CONC_ARGS, conc_scenarios(tier), 2 if tier == "thorough" else 1), "C02:",
+               2 if tier == "thorough" else 1)
     from engine import xh
     xh.run_kernels(run, "C02", C02_xh.kernels(tier))
     run.functions = loader.function_lines(loader.load(), API_FUNCS + [
